@@ -261,9 +261,13 @@ impl Handle {
         let backoff = Backoff::new();
         loop {
             if let Some(reader) = self.readers.pop() {
+                #[cfg(feature = "verif")]
+                crate::verif::point("get.checkout");
                 // Make a query with the key and return the context to the queue after we finish so
                 // other threads can make progress
                 let result = reader.get(key);
+                #[cfg(feature = "verif")]
+                crate::verif::point("get.before_checkin");
                 self.readers.push(reader).expect("unreachable error");
                 break result;
             }
@@ -288,6 +292,61 @@ impl Handle {
 
     fn close(&self) {
         self.ctx.closed.store(true)
+    }
+}
+
+#[cfg(feature = "verif")]
+impl Handle {
+    /// Run one merge pass now (verification hook).
+    pub fn verif_merge(&self) -> Result<(), Error> {
+        self.merge()
+    }
+
+    /// Force the active file to stable storage now (verification hook).
+    pub fn verif_sync(&self) -> Result<(), Error> {
+        self.sync()
+    }
+
+    /// Whether the background task would start a merge now (verification hook).
+    pub fn verif_can_merge(&self) -> bool {
+        self.ctx.can_merge()
+    }
+
+    /// Read-only snapshot of the index and the accounting state (verification hook).
+    pub fn verif_dump(&self) -> crate::verif::Dump {
+        let writer = self.writer.lock();
+        let mut keydir: Vec<_> = self
+            .ctx
+            .keydir
+            .iter()
+            .map(|e| crate::verif::DumpKey {
+                key: e.key().to_vec(),
+                fileid: e.fileid,
+                pos: e.pos,
+                len: e.len,
+                tstamp: e.tstamp,
+            })
+            .collect();
+        keydir.sort();
+        let mut stats: Vec<_> = self
+            .ctx
+            .stats
+            .iter()
+            .map(|e| crate::verif::DumpStat {
+                fileid: *e.key(),
+                live_keys: e.live_keys,
+                dead_keys: e.dead_keys,
+                dead_bytes: e.dead_bytes,
+            })
+            .collect();
+        stats.sort();
+        crate::verif::Dump {
+            keydir,
+            stats,
+            active_fileid: writer.active_fileid,
+            written_bytes: writer.written_bytes,
+            idle_readers: self.readers.len(),
+        }
     }
 }
 
@@ -347,6 +406,8 @@ impl Writer {
     fn put(&mut self, key: Bytes, value: Bytes) -> Result<(), Error> {
         // Write to disk
         let keydir_entry = self.write(utils::timestamp(), key.clone(), Some(value))?;
+        #[cfg(feature = "verif")]
+        crate::verif::point("put.before_publish");
         // If we overwrite an existing value, update the storage statistics
         if let Some(prev_keydir_entry) = self.ctx.keydir.insert(key, keydir_entry) {
             self.ctx
@@ -366,6 +427,8 @@ impl Writer {
     fn delete(&mut self, key: Bytes) -> Result<bool, Error> {
         // Write to disk
         self.write(utils::timestamp(), key.clone(), None)?;
+        #[cfg(feature = "verif")]
+        crate::verif::point("del.before_publish");
         // If we overwrite an existing value, update the storage statistics
         match self.ctx.keydir.remove(&key) {
             Some((_, prev_keydir_entry)) => {
@@ -390,6 +453,8 @@ impl Writer {
         // Append log entry
         let datafile_entry = DataFileEntry { tstamp, key, value };
         let index = self.writer.append(&datafile_entry)?;
+        #[cfg(feature = "verif")]
+        crate::verif::point("write.appended");
         // Sync immediately if the strategy is "always"
         if let SyncStrategy::Always = self.ctx.conf.sync {
             self.writer.sync()?;
@@ -479,6 +544,8 @@ impl Writer {
                     )?
                 };
 
+                #[cfg(feature = "verif")]
+                crate::verif::point("merge.copied");
                 // update keydir so it points to the merge data file
                 keydir_entry.fileid = merge_fileid;
                 keydir_entry.len = nbytes;
@@ -496,6 +563,8 @@ impl Writer {
                     key: keydir_entry.key().clone(),
                 })?;
 
+                #[cfg(feature = "verif")]
+                crate::verif::point("merge.hinted");
                 // switch to new merge data file if we exceed the max file size
                 merge_pos += nbytes;
                 if merge_pos > self.ctx.conf.max_file_size {
@@ -510,6 +579,8 @@ impl Writer {
             }
         }
 
+        #[cfg(feature = "verif")]
+        crate::verif::point("merge.before_unlink");
         // Remove stale files from system and storage statistics
         for id in &fileids_to_merge {
             self.ctx.stats.remove(id);
@@ -559,6 +630,8 @@ impl Reader {
     fn get(&self, key: Bytes) -> Result<Option<Bytes>, Error> {
         match self.ctx.keydir.get(&key) {
             Some(keydir_entry) => {
+                #[cfg(feature = "verif")]
+                crate::verif::point("get.lookup");
                 // SAFETY: We have taken `keydir_entry` from KeyDir which is ensured to point to
                 // valid data file positions. Thus we can be confident that the Mmap won't be
                 // mapped to an invalid segment.
@@ -639,6 +712,8 @@ async fn merge_on_interval(handle: Handle, mut shutdown: Shutdown) -> Result<(),
             },
         };
         if handle.ctx.can_merge() {
+            #[cfg(feature = "verif")]
+            crate::verif::point("bg.before_merge");
             let handle = handle.clone();
             if let Err(e) = tokio::task::spawn_blocking(move || handle.merge()).await? {
                 error!(cause=?e, "merge error");
